@@ -97,6 +97,31 @@ def step (_ : Unit) (op impl : String) : Unit × DrvOut :=
             | none => "ok"
       ((), { model, spec })
     | _, _, _ => ((), { model := "bad-op" })
+  | ["mp3", rate, pts, n] =>
+    -- round 5: frame k of an MPEG-1/2 audio unit is stamped (RTMP: whole ms) with the exact conversion of
+    -- pts + k · exact(samples per frame, 90000, sample rate) to nanoseconds
+    match rate.toInt?, pts.toInt?, n.toNat? with
+    | some rate, some pts, some n =>
+      match words impl with
+      | spfW :: rest =>
+        match (if spfW.startsWith "spf=" then (spfW.drop 4).toString.toInt? else none), rest.mapM (·.toInt?) with
+        | some spf, some got =>
+          let adv := exact spf 90000 rate
+          let want (k : Nat) : Int := Int.tdiv (exact (pts + Int.ofNat k * adv) nsPerSec 90000) 1000000
+          let model := match Gen.copies2.find? (·.1 == "protocols_rtmp_timestampToDuration") with
+            | some c => s!"spf={spf} " ++ " ".intercalate ((List.range n).map fun k =>
+                match c.2.2.2 (pts + Int.ofNat k * adv) 90000 with
+                | some r => s!"{Int.tdiv r 1000000}" | none => "panic")
+            | none => "-"
+          let spec :=
+            if got.length ≠ n then s!"FAIL {got.length} frames received instead of {n}"
+            else match ((List.range n).zip got).find? (fun (k, g) => g ≠ want k) with
+              | some (k, g) => s!"FAIL frame {k}: RTMP timestamp {g} ms, exact conversion of the frame timestamp gives {want k} ms"
+              | none => "ok"
+          ((), { model, spec })
+        | _, _ => ((), { model := "-", spec := "FAIL no frame timestamps" })
+      | [] => ((), { model := "-", spec := "FAIL no frame timestamps" })
+    | _, _, _ => ((), { model := "bad-op" })
   | "mp" :: ts :: _start :: durs =>
     -- round 4: the segment duration is the exact conversion of the elapsed ticks, whatever the start offset
     match ts.toInt?, durs.mapM (·.toInt?) with
